@@ -5,7 +5,7 @@ MODE = "src"
 EXPLANATION = ("Per length L all 256^L byte strings are symbolic; swap_multiples' multiple is an unbounded symbolic integer >= 1 "
                "(x mod m with symbolic m goes to z3 as non-linear integer arithmetic); its data-dependent branches are forked, everything else is merged.")
 BOUNDS = {"quick": "interleave/deinterleave/flip_msb: every byte string of length 0..24 (position-permutation obligations up to 10); "
-                   "swap_multiples: every byte string of length 0..6 x every multiple >= 1; pipelines (concrete multiples 3 and 7) up to length 5",
+                   "swap_multiples: every byte string of length 0..6 x every multiple >= 1; pipelines (concrete multiples 3 and 7) up to length 5; every primitive again after earlier calls of all four",
           "thorough": "interleave/deinterleave/flip_msb: every length 0..64 (permutation obligations up to 16); swap_multiples: length 0..9 x every multiple >= 1; pipelines (multiples 1,2,3,5,6,7,10,13) up to 8"}
 OUTSIDE = "longer data"
 ASSUMPTIONS = ["bit operations on non-negative ints encoded exactly over the integers (x & m as a sum of mod-2^k differences)"]
